@@ -343,8 +343,13 @@ def main():
         if not args.thorough:
             pairs = [p for j, p in enumerate(pairs) if (j + k) % 3 == 0] + [("numpy", "trap"), ("SX", "trap")]
         for (e, s) in pairs:
-            bits = 0 if (k % 2 == 0 or not args.thorough) else 0b111111
-            items.append(("pair", t.to_json(), e, s, True, bits if e != "numpy" or True else 0))
+            # the positivity options route through engine.max inside init_vars/step: every other topology runs
+            # its explicit-engine pairs with all six options on (both tiers)
+            bits = 0 if k % 2 == 0 else 0b111111
+            items.append(("pair", t.to_json(), e, s, True, bits))
+        # ... and every topology has the trap-selected pairs with the complementary option set
+        for e in (("numpy", "SX") if not args.thorough else kinds):
+            items.append(("pair", t.to_json(), e, "trap", True, 0b111111 if k % 2 == 0 else 0))
         for s in kinds:
             items.append(("pair", t.to_json(), s, s, False, 0b111111 if k % 3 == 0 else 0))
     if args.only:
